@@ -107,6 +107,9 @@ func (stageComp) Corpus() [][]string {
 		// crash images of a complete reception + pipeline
 		{"base ?", "recover 0", "prepare a 3 0", "cut 2 recv a - - 3 b1.2.3 0 3 1.2.3 0", "observe", "recover 0", "settle 0", "observe"},
 		{"base ?", "recover 0", "prepare a 3 0", "recv a - - 3 b1.2.3 0 3 1.2.3 0", "process a 0", "cut 2 finh a 0", "observe", "recover 0", "settle 0", "observe", "status a 0 0"},
+		// a held file (predecessor not delivered) arrives a second time, then the receiver restarts: it must still be held
+		{"base ?", "recover 0", "prepare b 2 0", "recv b - a 2 b1.2 0 2 1.2 0", "settle 0", "status b 0 0", "prepare b 2 0", "recv b - a 2 b1.2 0 2 1.2 0",
+			"observe", "crash", "recover 0", "settle 0", "observe", "status b 0 0", "prepare a 1 0", "recv a - - 1 b7 0 1 7 0", "settle 0", "observe"},
 		// a file that failed validation is sent again: the listing must not claim what the failed attempt had recorded
 		{"base ?", "recover 0", "prepare x.y 3 0", "recv x.y - - 3 b100.62.16 0 2 100.62 0", "recv x.y - - 3 b100.62.16 2 3 16 0", "corrupt x.y full 0 253", "settle 0",
 			"status x.y 0 0", "prepare x.y 3 0", "scan", "recv x.y - - 3 b100.62.16 0 2 100.62 0", "scan", "observe", "recv x.y - - 3 b100.62.16 2 3 16 0", "settle 0", "observe", "status x.y 0 0"},
